@@ -1,0 +1,22 @@
+//go:build verif
+
+// Package verifhook provides schedule points for the verification harness.
+package verifhook
+
+import "sync/atomic"
+
+type hookFn func(name string)
+
+var onPoint atomic.Value // hookFn
+
+// SetOnPoint installs (or, with nil, removes) the callback run at every Point.
+func SetOnPoint(f func(name string)) {
+	onPoint.Store(hookFn(f))
+}
+
+// Point calls the installed callback, if any.
+func Point(name string) {
+	if f, ok := onPoint.Load().(hookFn); ok && f != nil {
+		f(name)
+	}
+}
